@@ -45,7 +45,7 @@ namespace igris
 
         template <class T, dlist_node T::*ptr> T &cast_out() const
         {
-            return *member_container(this, ptr);
+            return *member_container(const_cast<dlist_node *>(this), ptr);
         }
 
         void move_prev_than(dlist_node *node)
